@@ -190,7 +190,9 @@ struct Run {
   FileState stateOf(const std::string& path) {
     FileState s;
     simfs::StatBuf sb;
-    if (simfs::fs().stat(abs(path), true, &sb) != 0) return s;
+    // the output of a symlink command is observed as a link (the build system records link info for it)
+    bool asLink = isLinkNode(path);
+    if (simfs::fs().stat(abs(path), !asLink, &sb) != 0) return s;
     s.exists = true;
     s.ino = sb.ino;
     s.mtime = sb.mtime_ns;
@@ -385,6 +387,7 @@ bool Run::expectedContent(const std::string& path, std::string* out) {
     return m->second.first;
   }
   const Cmd* p = desc.producer(path);
+  if (p && p->tool == "symlink") return expectedContent(p->contents, out);   // reading the link reads what it names
   if (!p || p->tool != "shell") {
     bool ok = readSim(path, out);
     return ok;
@@ -613,6 +616,25 @@ void Run::opBuild(const Json& op) {
   std::set<std::string> noClaim;   // commands about whose (non-)execution nothing is asserted in this build
   bool exact = true;   // the iff direction is only asserted when the model is exact for this build
   for (const Cmd* c : order) {
+    if (c->tool == "symlink") {
+      // "Arbitrary inputs can be declared, but they will only be used to establish the order in which the command is run"
+      // (docs/buildsystem.rst): it neither consumes them nor is stopped by their failure.  It runs iff never done,
+      // redefined, or the link is not the one it made.
+      auto rit = recs.find(c->name);
+      bool run = rit == recs.end() || !rit->second.ok || rit->second.defHash != defHashWithNodes(*c) || stateOf(c->outputs[0]) != rit->second.outs[c->outputs[0]];
+      predictRun[c->name] = run;
+      predictFail[c->name] = false;
+      continue;
+    }
+    if (c->tool == "mkdir") {
+      // valid while the directory exists and is a directory; its stored value does not follow the directory's timestamps
+      auto rit = recs.find(c->name);
+      FileState d = stateOf(c->outputs[0]);
+      bool run = rit == recs.end() || !rit->second.ok || rit->second.defHash != defHashWithNodes(*c) || !d.exists || d.type != (int)simfs::Inode::Dir;
+      predictRun[c->name] = run;
+      predictFail[c->name] = false;
+      continue;
+    }
     if (c->tool != "shell") {
       predictRun[c->name] = false;
       if (c->tool != "phony") exact = false;
@@ -677,6 +699,7 @@ void Run::opBuild(const Json& op) {
           else if ((r.trees[i + "#root"] == "-") != (treeRootStat(i) == "-")) exact = false;
           continue;
         }
+        if (isMkdirNode(i)) continue;   // the node's value is the mkdir command's result: it changes when that command runs
         FileState now = stateOf(i);
         const Cmd* ip = desc.producer(i);
         if (desc.fsmode == "checksum-only" && ip && ip->tool == "shell" && predictRun[ip->name]) {
@@ -868,6 +891,11 @@ void Run::opBuild(const Json& op) {
       if (execs[k].name == execs[i].name) n++;
     if (n > 1) viol("C09.5", "command " + execs[i].name + " was executed " + std::to_string(n) + " times in one build");
   }
+  for (const Cmd* c : order)
+    if ((c->tool == "symlink" || c->tool == "mkdir") && startedThisBuild.count(c->name)) {
+      ran.insert(c->name);
+      if (finishedOkThisBuild.count(c->name)) ranOk.insert(c->name);
+    }
   res.counters["commands_executed"] += ran.size();
 
   // C05 at build-system level: a cancelled build reports failure and starts nothing after cancel() returned
@@ -906,7 +934,7 @@ void Run::opBuild(const Json& op) {
     while (grew) {
       grew = false;
       for (auto& c : desc.cmds) {
-        if (tainted.count(c.name)) continue;
+        if (tainted.count(c.name) || c.tool == "symlink") continue;   // a symlink command's inputs only order it
         for (auto& i : c.inputs) {
           const Cmd* p = desc.producer(i);
           if (p && tainted.count(p->name)) {
@@ -943,6 +971,20 @@ void Run::opBuild(const Json& op) {
       if (skip) unjudged.insert(c->name);
     }
     for (const Cmd* c : order) {
+      if (c->tool == "symlink") {
+        std::string target;
+        int rc = simfs::fs().readlink(abs(c->outputs[0]), &target);
+        if (rc != 0) viol("C08.1", "after successful build " + std::to_string(buildNo) + " " + c->outputs[0] + " is not a symbolic link (symlink command " + c->name + ")");
+        else if (target != c->contents) viol("C08.1", "after successful build " + std::to_string(buildNo) + " link " + c->outputs[0] + " names " + util::printable(target, 40) + " instead of " + util::printable(c->contents, 40));
+        res.counters["links_compared"]++;
+        continue;
+      }
+      if (c->tool == "mkdir") {
+        FileState d = stateOf(c->outputs[0]);
+        if (!d.exists || d.type != (int)simfs::Inode::Dir) viol("C08.1", "after successful build " + std::to_string(buildNo) + " " + c->outputs[0] + " is not a directory (mkdir command " + c->name + ")");
+        res.counters["directories_compared"]++;
+        continue;
+      }
       if (c->tool != "shell" || unjudged.count(c->name)) continue;
       for (auto& o : c->outputs) {
         if (isVirtualNode(o) || isDirNode(o)) continue;
@@ -969,7 +1011,7 @@ void Run::opBuild(const Json& op) {
   // C09: executed set vs. model
   bool anyRan = false, anySkipped = false;
   for (const Cmd* c : order) {
-    if (c->tool != "shell") continue;
+    if (c->tool != "shell" && c->tool != "symlink" && c->tool != "mkdir") continue;
     bool did = ran.count(c->name) > 0;
     bool want = predictRun[c->name];
     if (did) anyRan = true;
@@ -1055,6 +1097,19 @@ void Run::opBuild(const Json& op) {
       if (c->tool == "shell" && recs.count(c->name)) recs[c->name].sawBuild = buildNo;
   // ---- update the records of what ran
   for (const Cmd* c : order) {
+    if (c->tool == "symlink" || c->tool == "mkdir") {
+      if (ranOk.count(c->name)) {
+        Rec r;
+        r.ok = true;
+        r.sawBuild = buildNo;
+        r.defHash = defHashWithNodes(*c);
+        r.outs[c->outputs[0]] = stateOf(c->outputs[0]);
+        recs[c->name] = r;
+      } else if (ran.count(c->name)) {
+        recs[c->name].ok = false;
+      }
+      continue;
+    }
     if (c->tool != "shell") continue;
     if (ranOk.count(c->name) && !(failFlags.count(c->name) && (failFlags[c->name] == "baddeps" || failFlags[c->name] == "baddeps2"))) {
       Rec r;
@@ -1067,7 +1122,7 @@ void Run::opBuild(const Json& op) {
           r.trees[i + "#root"] = treeRootStat(i);
           r.trees[i + "#filters"] = nodeAttr(i, "content-exclusion-patterns");
         }
-        else if (!isVirtualNode(i)) r.ins[i] = stateOf(i);
+        else if (!isVirtualNode(i) && !isMkdirNode(i)) r.ins[i] = stateOf(i);
       }
       for (auto& o : c->outputs)
         if (!isVirtualNode(o) && !isDirNode(o)) r.outs[o] = stateOf(o);
@@ -1190,6 +1245,7 @@ void Run::execute() {
     } else if (kind == "edit") {
       std::string p = abs(util::unhex(op.gets("path")));
       simfs::fs().mkdirs(p.substr(0, p.rfind('/')));
+      if (isLinkNode(p)) simfs::fs().removeAll(p);   // something else takes the link's place (not: write through it)
       simfs::fs().writeFile(p, util::unhex(op.gets("content")));
       sourceEdits++;
       ev("edit " + util::printable(p, 60));
@@ -1403,6 +1459,65 @@ struct Gen {
     if (products.size() > 2) desc.targets["second"] = {products[rng.below(products.size())]};
     if (property == "C12") buildTree();
     if (rng.chance(300)) desc.fsmode = rng.chance(500) ? "device-agnostic" : "checksum-only";
+    if (desc.fsmode.empty() && (property == "C08" || property == "C09" || property == "C10") && rng.chance(250)) {
+      // a symlink command (built-in tool, no process) naming a product or a source, and a command that reads through it
+      std::vector<std::string> cands;
+      for (auto& o : products)
+        if (!isVirtualNode(o) && o.find('/') == std::string::npos) cands.push_back(o);
+      for (auto& s0 : srcs)
+        if (s0.find('/') == std::string::npos) cands.push_back(s0);
+      if (!cands.empty()) {
+        std::string t = cands[rng.below(cands.size())];
+        Cmd sl;
+        sl.name = "S0";
+        sl.tool = "symlink";
+        sl.outputs = {"lk0.lnk"};
+        sl.contents = t;
+        if (desc.producer(t)) sl.inputs = {t};
+        desc.cmds.push_back(sl);
+        Cmd rd;
+        rd.name = "R0";
+        rd.salt = rng.below(100000);
+        rd.inputs = {"lk0.lnk", t};
+        std::sort(rd.inputs.begin(), rd.inputs.end());
+        rd.outputs = {"or0"};
+        desc.cmds.push_back(rd);
+        Cmd* all = nullptr;
+        for (auto& c : desc.cmds)
+          if (c.name == "all") all = &c;
+        if (all) all->inputs.push_back("or0");
+        else desc.targets[""].push_back("or0");
+        linkCommands++;
+      }
+    }
+    if (desc.fsmode.empty() && (property == "C08" || property == "C09" || property == "C10") && rng.chance(250)) {
+      // a mkdir command (built-in tool) and a command that waits for the directory and writes into it
+      Cmd mk;
+      mk.name = "M0";
+      mk.tool = "mkdir";
+      mk.outputs = {"gen.dir"};
+      desc.cmds.push_back(mk);
+      Cmd w;
+      w.name = "W0";
+      w.salt = rng.below(100000);
+      w.inputs = {srcs[rng.below(srcs.size())], "gen.dir"};
+      w.outputs = {"gen.dir/ow0"};
+      desc.cmds.push_back(w);
+      // ... and one whose directory nothing else would re-create (commands create the parents of their own outputs)
+      Cmd mk2;
+      mk2.name = "M1";
+      mk2.tool = "mkdir";
+      mk2.outputs = {"keep.dir"};
+      desc.cmds.push_back(mk2);
+      Cmd* all = nullptr;
+      for (auto& c : desc.cmds)
+        if (c.name == "all") all = &c;
+      for (const char* n : {"gen.dir/ow0", "keep.dir"}) {
+        if (all) all->inputs.push_back(n);
+        else desc.targets[""].push_back(n);
+      }
+      mkdirCommands++;
+    }
     desc.normalise();
   }
 
@@ -1456,6 +1571,7 @@ struct Gen {
   // ---- C12: a source tree consumed through a directory-tree / directory-structure node
   std::set<std::string> treeFiles, treeDirs;
   std::map<std::string, std::vector<std::string>> pastContents;
+  int linkCommands = 0, mkdirCommands = 0;
   std::string pickName(bool dirName) {
     static const char* fn[] = {"a.txt", "b.txt", "c.c", "d.tmp", "skipme", "e.h", "f.tmp", "g", "skip.2", "h.txt"};
     static const char* dn[] = {"sub", "inc", "x", "deep", "skipdir", "y.tmp"};
@@ -1557,6 +1673,7 @@ struct Gen {
     if (shells.empty()) return "none";
     Cmd& c = desc.cmds[shells[rng.below(shells.size())]];
     unsigned k = (unsigned)rng.below(15);
+    if ((c.name == "R0" || c.name == "W0") && (k == 9 || k == 12)) return "none";   // the reader of a link keeps declaring what the link names
     switch (k) {
     case 0: c.salt++; return "arg";
     case 1:
@@ -1757,6 +1874,15 @@ struct Gen {
           sources[p] = content;
           hist.push(Json::obj().set("op", "edit").set("path", util::hex(p)).set("content", util::hex(content)));
         }
+        addBuild();
+      } else if (roll < 620 && roll >= 600 && mkdirCommands > 0 && desc.byName("M0")) {
+        // the directory disappears with everything in it
+        hist.push(Json::obj().set("op", "delete").set("path", util::hex(rng.chance(500) ? "gen.dir" : "keep.dir")));
+        addBuild();
+      } else if (roll < 600 && linkCommands > 0 && desc.byName("S0")) {
+        // the link disappears, or something else takes its place
+        if (rng.chance(500)) hist.push(Json::obj().set("op", "delete").set("path", util::hex("lk0.lnk")));
+        else hist.push(Json::obj().set("op", "edit").set("path", util::hex("lk0.lnk")).set("content", util::hex("not a link " + std::to_string(counter++) + "\n")));
         addBuild();
       } else if (roll < 700) {
         // tamper with or delete an output
